@@ -8,6 +8,9 @@ layout-changing rewrites.
 Extension streams (harness/props_ext/c03_blocks.py): multi-input map_blocks / blockwise(align_arrays=False) over
 inputs of equal block count and different block sizes; every operation taking an explicit dtype= over >= 3 blocks
 (every block's dtype, also after the first block is sliced away).
+harness/props_ext/c03_layout.py: block layouts — expression families whose optimized root lands on another layout than the
+advertised one with the SAME block counts (steered), and every public Array method / da function that derives chunks
+arithmetically on arrays whose axes have equal block counts and different sizes; shape, dtype and content of every block.
 """
 from __future__ import annotations
 
@@ -95,11 +98,26 @@ def run(ctx, replay=None):
         "shape-only block function and a brute-force positional oracle; every public op taking dtype= (cumulative ops both "
         "methods, reductions, astype, ufuncs, creation, einsum/trace/cov, mixed-dtype products, map_blocks/map_overlap/"
         "apply_gufunc/apply_along_axis/reduction) over >= 3 blocks, whole and after tail-slice/.blocks/take/rechunk: each block's "
-        "dtype and shape vs advertised; distinct = (stream, api/family, fn, method, narrowing/widening, consumer)"
+        "dtype and shape vs advertised; distinct = (stream, api/family, fn, method, narrowing/widening, consumer).  Plus "
+        "(props_ext/c03_layout): (drift) selections (integer lists, slices of any step, flips, rolls) over elementwise combinations of 2-3 "
+        "operands whose chunkings along the selected axis have EQUAL block counts and different cuts (also other counts / equal), with "
+        "astype/negation/cumsum/reductions/transposes/concatenate/stack/rechunk in between, sliding-window reductions over ragged chunkings "
+        "with a chunk shorter than the window, each under a consumer that trusts the layout (none, elementwise, map_blocks with block_info, "
+        ".blocks, reduction); candidates are steered (not judged) by the layout the optimizer settles on so that every run holds a quota of "
+        "cases per family whose optimized root has the advertised block COUNTS and other block SIZES; every block's shape, dtype and content "
+        "(vs NumPy at the advertised extents) is checked; distinct = (family, drift class, consumer).  (method) ~430 entries: every public "
+        "Array method / da function that derives chunks (view with both orders x 14 itemsize pairs, astype, real/imag, ravel/reshape, repeat, "
+        "tile, pad modes, insert/delete/append, diff, cumulative ops, to_delayed/from_delayed/store round trips, axis permutations, flips/"
+        "rot90, squeeze/expand_dims/atleast_nd, blocks/partitions, map_blocks/blockwise/map_overlap with adjusted chunks, coarsen, topk, "
+        "stacking, tri*/diag*, reductions, products, fft, linalg, creation, all ufuncs) on arrays of rank 1-3 whose AXES have equal block "
+        "counts and different block sizes, against the same NumPy call; distinct = (entry, rank)"
     )
     if replay is not None and replay.get("case", {}).get("reshape"):  # harness/props_ext/c01_reshape.py
         from harness.props_ext import c01_reshape
         return c01_reshape.replay(ctx, replay["case"])
+    if replay is not None and replay.get("case", {}).get("layout"):  # harness/props_ext/c03_layout.py
+        from harness.props_ext import c03_layout
+        return c03_layout.replay(ctx, replay["case"])
     if replay is not None and (replay.get("case", {}).get("mbshape") or replay.get("case", {}).get("xdtype")):  # harness/props_ext/c03_blocks.py
         from harness.props_ext import c03_blocks
         return c03_blocks.replay(ctx, replay["case"])
@@ -147,6 +165,11 @@ def run(ctx, replay=None):
     from harness.props_ext import c03_blocks
     c03_blocks.run(ctx)
     lap("c03_blocks")
+    # block layouts: optimized root on another layout than advertised (same block counts, other sizes); every Array method /
+    # da function that re-derives chunks arithmetically, on arrays whose axes have equal block counts and different sizes
+    from harness.props_ext import c03_layout
+    c03_layout.run(ctx)
+    lap("c03_layout")
     from harness.props_ext import c01_reshape  # reshape planner: per-block shapes vs advertised chunks (Props/C03Reshape.lean; rsh.*)
     c01_reshape.run(ctx)
     lap("reshape")
